@@ -80,6 +80,8 @@ type World struct {
 	// tuple that has the key of a stored tuple (the contextual tuple REPLACES the stored one; Tuples
 	// itself is the union reading).
 	Contextual []Tuple `json:"contextual,omitempty"`
+	// Tag names a harness-specific variant of the world (part of violation signatures and replays).
+	Tag string `json:"tag,omitempty"`
 	Alt        *World  `json:"-"`
 
 	cache map[string]map[string]TV
